@@ -6,6 +6,7 @@ import (
 	"fmt"
 	"strings"
 
+	"github.com/aml-org/amf-custom-validator/internal/types"
 	v "github.com/aml-org/amf-custom-validator/internal/zzverif"
 	c "github.com/aml-org/amf-custom-validator/pkg/config"
 	"github.com/open-policy-agent/opa/rego"
@@ -210,4 +211,40 @@ func VerifC09HistoryNative() {
 		v.Assert("C09.step-independent.error", (e1 == nil) == (e3 == nil))
 		v.Assert("C09.step-independent.panic", p1 == p3)
 	}
+}
+
+// VerifC09IndexFrame: building the input index of any document shape stores nothing into
+// package-level state (what one document leaves behind, the next one would see).
+func VerifC09IndexFrame() {
+	g := verifGraph()
+	v.TrackWrites(true)
+	panicked, _ := verifGuardPanic(func() { Index(g) })
+	v.TrackWrites(false)
+	v.Reach("indexed")
+	_ = panicked
+	for _, w := range v.WriteLog() {
+		v.Note("write", w)
+	}
+	v.Assert("C09.frame-globals", v.GlobalWrites() == 0)
+}
+
+// VerifC09IndexFrameNative: the observable consequence of index state leaking between documents:
+// a document without source information indexed after one that has it.
+func VerifC09IndexFrameNative() {
+	withSI := verifObj("@graph", []any{
+		verifObj("@id", "n1", "@type", "http://example.org/C"),
+		verifObj("@id", "si1", "@type", docNS+"BaseUnitSourceInformation", docNS+"rootLocation", "file://root", docNS+"additionalLocations", verifObj("@id", "loc1")),
+		verifObj("@id", "loc1", docNS+"location", "file://other", docNS+"elements", []any{verifObj("@id", "n1"), verifObj("@id", "n2")}),
+	})
+	plain := func() any {
+		return verifObj("@graph", []any{
+			verifObj("@id", "n1", "@type", "http://example.org/C"),
+			verifObj("@id", "sm1", "@type", smNS+"SourceMap", smNS+"lexical", verifObj("@id", "lex1")),
+			verifObj("@id", "lex1", smNS+"element", "n1", smNS+"value", "[(1,2)-(3,4)]"),
+		})
+	}
+	fresh := Index(plain()).(types.ObjectMap)["@lexical"].(types.ObjectMap)["n1"].(types.ObjectMap)["uri"]
+	Index(withSI)
+	after := Index(plain()).(types.ObjectMap)["@lexical"].(types.ObjectMap)["n1"].(types.ObjectMap)["uri"]
+	v.Assert("C09.frame-globals", fresh == after && after == "")
 }
